@@ -13,7 +13,7 @@ import z3
 from . import mirdump, replay as replay_mod
 from .engine import Engine, Program
 from .values import *
-from . import models_core, models_str, models_iter, models_fmt, models_rowan  # noqa: F401 (register models)
+from . import models_core, models_str, models_iter, models_fmt, models_rowan, models_ext, models_regex  # noqa: F401 (register models)
 
 ROOT = os.path.dirname(os.path.dirname(os.path.abspath(__file__)))
 
@@ -108,6 +108,7 @@ def worker_init(mirfiles, replay_path, seed, harness_mod, strict):
     e = Engine(prog); e.seed = seed
     G['e'] = e; G['prog'] = prog
     G['replay'] = replay_mod.Replay(replay_path)
+    e.native = G['replay']
     G['mod'] = importlib.import_module(harness_mod)
     G['harness'] = G['mod'].HARNESS
     G['strict'] = strict
